@@ -21,7 +21,7 @@ func init() {
 func (c19) ID() string    { return "C19" }
 func (c19) Level() string { return "exploration" }
 func (c19) Rule() string {
-	return "A case is a seeded situation: a branch rule needing 1-3 of persons 1-3 (person 4 defined but not trusted), optionally a global threshold rule, optionally a file rule (1-2 of a subset of the persons) on the first feature file, a feature history (1-3 commits by various actors) that is ahead of or diverged from the branch, and prior approvals for exactly the predicted merge (authorizations and code-review approvals by any subset of persons, possibly stale). The real VerifyMergeable gives the prediction; then, for each candidate recorder (a trusted person who has not approved, one who has, the untrusted person 4, an outsider key, unsigned) the same operations are re-executed from scratch (exact replay = a fork of the same state), the fast-forward or the pre-built merge commit carrying the predicted tree is recorded by that candidate, and VerifyRefFull is run. Oracle: the three-way contract of the statement per recorder. Distinct = distinct (threshold, global rule, approval set, shape, prediction, per-recorder outcome vector); non-trivial = the prediction was 'possible' in at least one form or approvals were present."
+	return "A case is a seeded situation: a branch rule needing 1-3 of persons 1-3 (person 4 defined but not trusted), optionally a global threshold rule, optionally a file rule (1-2 of a subset of the persons) on the first or on every feature file, a feature history (1-3 commits by various actors) that is ahead of or diverged from the branch, and prior approvals for exactly the predicted merge (authorizations and code-review approvals by any subset of persons, possibly stale). The real VerifyMergeable gives the prediction; then, for each candidate recorder (a trusted person who has not approved, one who has, the untrusted person 4, an outsider key, unsigned) the same operations are re-executed from scratch (exact replay = a fork of the same state), the fast-forward or the pre-built merge commit carrying the predicted tree is recorded by that candidate, and VerifyRefFull is run. Oracle: the three-way contract of the statement per recorder. Distinct = distinct (threshold, global rule, approval set, shape, prediction, per-recorder outcome vector); non-trivial = the prediction was 'possible' in at least one form or approvals were present."
 }
 func (c19) Components() map[string]string {
 	return map[string]string{"internal/policy (verifyMergeable, verifier)": "real", "internal/attestations": "real", "GetMergeTree": "stub (SimStore per-path three-way merge; real `git merge-tree` is exercised by the git-backed checks)", "gitstore.Storer": "stub (SimStore)"}
@@ -79,7 +79,7 @@ func (c19) Generate(r *core.Rand, tier string, idx uint64) *core.Case {
 		for _, k := range subset(r, []int{1, 2, 3}, r.Range(n, 3)) {
 			ids = append(ids, fmt.Sprintf("person-%d", k))
 		}
-		p2.Files["targets"].Rules = append(p2.Files["targets"].Rules, world.RuleSpec{Name: "protect-feat0", Patterns: []string{"file:feat0.txt"}, Principals: ids, Threshold: n})
+		p2.Files["targets"].Rules = append(p2.Files["targets"].Rules, world.RuleSpec{Name: "protect-feat0", Patterns: []string{[]string{"file:feat0.txt", "file:feat*"}[r.Intn(2)]}, Principals: ids, Threshold: n})
 	}
 	b.add(world.Op{Kind: "stage", Actor: 0, Policy: p2})
 	b.add(world.Op{Kind: "apply", Actor: 0})
